@@ -164,6 +164,9 @@ func structOf(t types.Type) *types.Struct {
 
 // accessible: can the scenario package refer to this member?
 func (md *Model) accessible(obj types.Object) bool {
+	if obj.Name() == "_" {
+		return false // blank fields can be neither read nor assigned
+	}
 	return obj.Exported() || obj.Pkg() == nil || obj.Pkg() == md.Pkg || obj.Pkg().Path() == md.Pkg.Path()
 }
 
